@@ -1,5 +1,5 @@
 (* C11/Witness.v — non-vacuity examples and concrete evaluations. *)
-From Verif Require Import Common.Base Generated.StatusTable C11.Model C11.Diagram C11.Proofs C11.ProofsConc C11.ProofsRepair.
+From Verif Require Import Common.Base Generated.StatusTable C11.Model C11.Diagram C11.Proofs C11.ProofsConc C11.ProofsRepair C11.ProofsRound4.
 
 (* a non-trivial report sequence: illegal reports interleaved with legal ones *)
 Example ex_run :
@@ -68,3 +68,15 @@ Example ex_watchers :
   NoDup [0; 2] /\ In 2 [0; 2] /\
   watcher_deliveries [0; 2] [(1, Starting); (1, OK)] = [(0, (1, Starting)); (2, (1, Starting)); (0, (1, OK)); (2, (1, OK))].
 Proof. repeat split; try (vm_compute; auto; fail). repeat constructor; simpl; intuition discriminate. Qed.
+
+(* instance identities: receiver 0 used by traces/1 and traces/2 is ONE node naming both pipelines; a
+   connector used twice names all four ends *)
+Example ex_instances :
+  inst_pairs (inst_run [IRecv 1 0; IExp 1 0; IRecv 2 0; IExp 2 1; IConn 1 12 0; IConn 2 11 0])
+  = [(1000, 1); (1000, 2); (3000, 1); (3100, 2); (4001, 1); (4001, 12); (4001, 2); (4001, 11)].
+Proof. vm_compute. reflexivity. Qed.
+
+(* shared_fanout_uniform: hypotheses satisfiable on a non-trivial state *)
+Example ex_fanout :
+  NoDup (sources {| sources := [0; 1; 2]; ring := [Starting] |}) /\ In 1 [0; 1; 2].
+Proof. split; [repeat constructor; simpl; intuition discriminate|simpl; auto]. Qed.
